@@ -15,6 +15,9 @@ def run_shard(prop, tier, seed, shard, nshards, outfile, case_timeout):
     bct = loader.load()
     import numpy as np
     monitor.install(bct)
+    # a hostile but legitimate process environment: arrays print abbreviated from 5 entries on (anything keyed by the
+    # printed form of an array now collides on small inputs instead of beyond 1000 entries)
+    np.set_printoptions(threshold=4, edgeitems=1, precision=2)
     mod = importlib.import_module('bctmon.props.' + prop)
     REC = monitor.REC
     REC.reset()
